@@ -127,10 +127,11 @@ def command_class(name):
     return getattr(importlib.import_module("mpilot.libraries.eems." + lib), name)
 
 
-def run_impl(case, copy_inputs=True, strict=False, plain=False):
+def run_impl(case, copy_inputs=True, strict=False, plain=False, derived=None):
     """Runs the real `execute`.  Returns a dict:
        {"status": "ok", "result": array, "vis": ..., "producers": [...]} or
-       {"status": "err", "kind": "mp"|"raw", "cls": ..., "ref": "cmd"|"none"|"arg:<name>"|"line:<n>"}"""
+       {"status": "err", "kind": "mp"|"raw", "cls": ..., "ref": "cmd"|"none"|"arg:<name>"|"line:<n>"}
+       derived=<built-in command name>: the producers are finished commands of a plug-in class derived from that built-in command"""
     from mpilot.arguments import Argument
     from mpilot.exceptions import MPilotError
     lib, how, pmap = COMMANDS[case.cmd]
@@ -145,7 +146,11 @@ def run_impl(case, copy_inputs=True, strict=False, plain=False):
     # plain: the producers hand out plain ndarrays (what a plug-in command that knows nothing of masked arrays returns) - only used when nothing is missing
     def _as_plain(i):
         return plain is True or (plain == "first" and i == first[id(case.inputs[0])])
-    uniq = {i: Producer(numpy.array(numpy.ma.getdata(copies[i])) if _as_plain(i) else copies[i], "I%d" % i, fuzzy_in) for i in copies}
+    handed = {i: (numpy.array(numpy.ma.getdata(copies[i])) if _as_plain(i) else copies[i]) for i in copies}
+    if derived is None:
+        uniq = {i: Producer(handed[i], "I%d" % i, fuzzy_in) for i in copies}
+    else:
+        uniq = {i: derived_producer(derived, handed[i], "I%d" % i) for i in copies}
     prods = [uniq[first[id(a)]] for a in case.inputs]
     kwargs = dict(case.params)
     if how == "one":
@@ -160,7 +165,7 @@ def run_impl(case, copy_inputs=True, strict=False, plain=False):
     arg_names = names + [k for k in pmap if k in case.params]
     args = [Argument(n, None, ARG_LINE0 + i) for i, n in enumerate(arg_names)]
     cmd = cls("R", args, program=None, lineno=CMD_LINE)
-    out = {"producers": prods, "inputs_after": inputs}
+    out = {"producers": prods, "inputs_after": inputs, "handed": [handed[first[id(a)]] for a in case.inputs]}
     with warnings.catch_warnings():
         # strict: the caller has turned warnings into errors and told numpy to raise on floating-point events
         warnings.simplefilter("ignore")
@@ -247,6 +252,68 @@ def arrays_lib():
     return m
 
 
+DERLIB = "mpverif_derived"
+DERLIB_SRC = '''
+from mpilot import params
+from mpilot.libraries.eems import basic, fuzzy
+
+HOLD = {}     # result name -> the array the command hands out
+
+
+def _held(base):
+    """a user command that extends the built-in command `base` (to inherit its flags and documentation) and hands out whatever its author computes"""
+    def execute(self, **kw):
+        return HOLD[self.result_name]
+    return type(base)("HeldAs" + base.__name__, (base,), {"__module__": __name__, "__doc__": "plug-in derived from " + base.__name__, "inputs": {},
+                                                        "output": params.DataParameter(), "execute": execute})
+
+
+def _boosted(base):
+    """a user command that post-processes the result of the built-in command it extends (a contrast stretch): what it returns is its own business"""
+    def execute(self, **kw):
+        gain, shift = kw.pop("Gain"), kw.pop("Shift", 0)
+        return super(cls, self).execute(**kw) * gain + shift
+    inputs = dict((k, v) for k, v in base.inputs.items() if k != "Metadata")
+    inputs["Gain"] = params.NumberParameter()
+    inputs["Shift"] = params.NumberParameter(required=False)
+    cls = type(base)("Boosted" + base.__name__, (base,), {"__module__": __name__, "__doc__": "plug-in derived from " + base.__name__, "inputs": inputs,
+                                                         "output": params.DataParameter(), "execute": execute})
+    return cls
+
+
+HELD, BOOSTED = {}, {}
+for _mod in (basic, fuzzy):
+    for _name in %r:
+        _base = getattr(_mod, _name, None)
+        if _base is not None and _base.__module__ == _mod.__name__:
+            HELD[_name] = _held(_base)
+            BOOSTED[_name] = _boosted(_base)
+''' % (sorted(COMMANDS),)
+
+
+def derived_lib():
+    """plug-in classes DERIVED from the built-in data commands (a user library that extends CvtToFuzzy, FuzzyOr, Sum ...): to every consumer they are
+    commands like any other - what they hand out need not have the properties of what the built-in command returns"""
+    import sys, types
+    if DERLIB in sys.modules:
+        return sys.modules[DERLIB]
+    m = types.ModuleType(DERLIB)
+    sys.modules[DERLIB] = m
+    exec(compile(DERLIB_SRC, DERLIB, "exec"), m.__dict__)
+    return m
+
+
+def derived_producer(base, arr, name):
+    """a finished command of the plug-in class derived from the built-in command `base`, holding `arr` as its result"""
+    lib = derived_lib()
+    cmd = lib.HELD[base](name, [], program=None, lineno=CMD_LINE - 1)
+    lib.HOLD[name] = arr
+    cmd._result = arr
+    cmd._arr = arr
+    cmd.is_finished = True
+    return cmd
+
+
 def _np_scalar(rng, v):
     """the same number as a numpy scalar of some width (what an API caller may pass), when it is exactly representable there"""
     if isinstance(v, bool) or not isinstance(v, (int, float)):
@@ -261,7 +328,7 @@ def _np_scalar(rng, v):
     return v
 
 
-def run_pipeline(case, producers_first=True, rng=None, whole_run=False, program=None, tag="", fault=None):
+def run_pipeline(case, producers_first=True, rng=None, whole_run=False, program=None, tag="", fault=None, derived=None):
     """The same case through the whole pipeline: a Program whose producer commands hand out the input arrays, the command under test added
     with its arguments as the parser would deliver them (numbers, words, ListArguments), evaluated through `.result` - i.e. through
     `Command.run`, `validate_params` and every parameter cleaner.  Returns a dict like run_impl; raw exceptions raised inside the body arrive
@@ -284,6 +351,11 @@ def run_pipeline(case, producers_first=True, rng=None, whole_run=False, program=
     names = ["I%s%d" % (tag, first[id(a)]) for a in case.inputs]
     p = program if program is not None else new_pipeline_program()
     for i in sorted(copies):
+        if derived is not None:
+            # derived = a built-in command name: the producers are commands of a plug-in class derived from that command (they hand out the same arrays)
+            derived_lib().HOLD["I%s%d" % (tag, i)] = copies[i]
+            p.add_command(derived_lib().HELD[derived], "I%s%d" % (tag, i), OrderedDict())
+            continue
         lib.HOLD["I%s%d" % (tag, i)] = copies[i]
         p.add_command(lib.HeldFuzzy if fuzzy_in else lib.HeldData, "I%s%d" % (tag, i), OrderedDict())
     args = OrderedDict()
@@ -358,7 +430,8 @@ def run_pipeline(case, producers_first=True, rng=None, whole_run=False, program=
 def new_pipeline_program():
     from mpilot.program import Program
     arrays_lib()
-    return Program(libraries=("mpilot.libraries.eems.basic", "mpilot.libraries.eems.fuzzy", ARRLIB))
+    derived_lib()
+    return Program(libraries=("mpilot.libraries.eems.basic", "mpilot.libraries.eems.fuzzy", ARRLIB, DERLIB))
 
 
 def pipeline_differs(direct, piped):
@@ -793,6 +866,136 @@ def gen_case(rng, cmd, style="valid", **kw):
     return Case(cmd, gen_params(rng, cmd, inputs, style), inputs)
 
 
+LONG_TABLE_SHAPES = [(24,), (36,), (4, 6), (6, 6), (24, 1), (1, 30), (2, 3, 4), (3, 1, 12), (2, 2, 9)]
+
+
+def long_table_cases(rng, lengths=(40, 100, 300, 1000), curves=(60, 200)):
+    """directed: category tables (and curves) with tens to a thousand entries, listed in no particular order, whole numbers and fractions, ints and floats mixed,
+    on vectors and on grids of rank 2 and 3 (with length-1 axes), most cells holding a listed code, some an unlisted one, some missing: every cell gets the value
+    listed for ITS code whatever the length of the table and the shape of the grid (a body may switch to a sorted / hashed / vectorised look-up for long tables)"""
+    cases = []
+    for n in lengths:
+        for cmd in ("NormalizeCat", "CvtToFuzzyCat"):
+            fz = cmd == "CvtToFuzzyCat"
+            for rank in (1, 2, 3):
+                whole = rank != 2 and rng.random() < 0.5            # a table of whole numbers only (held in an integer grid), or one with halves among them
+                pool = list(range(-n // 3, 2 * n)) + ([] if whole else [k + 0.5 for k in range(0, n, 3)])
+                codes = rng.sample(pool, n)
+                listed = rng.choice(["shuffled", "descending", "nearly-ascending"])
+                if listed == "descending":
+                    codes.sort(reverse=True)
+                elif listed == "nearly-ascending":
+                    codes.sort()
+                    i, j = rng.sample(range(n), 2)
+                    codes[i], codes[j] = codes[j], codes[i]
+                # whole codes written with a decimal point now and then (7.0 is the code 7)
+                codes = [float(c) if isinstance(c, int) and not whole and rng.random() < 0.2 else c for c in codes]
+                # every code its own value (a neighbour's value is a different number), binary fractions; the fuzzy table reaches beyond the fuzzy range
+                step = 1.0 / 64
+                vals = [((k * 37) % n) * step - (1.25 if fz else 3) for k in range(n)]
+                vals = [int(v) if v == int(v) and rng.random() < 0.3 else v for v in vals]
+                shape = rng.choice([s for s in LONG_TABLE_SHAPES if len(s) == rank])
+                ncell = int(numpy.prod(shape))
+                unlisted = [c for c in ([-n, 3 * n, 0.25, n + 0.75] + pool[:40]) if c not in set(codes)]
+                if whole:
+                    unlisted = [c for c in unlisted if float(c) == int(c)] or [-n - 1]
+                cells = [rng.choice(codes) if rng.random() < 0.85 else rng.choice(unlisted) for _ in range(ncell)]
+                cells[0], cells[-1] = codes[0], codes[-1]
+                dt = int if whole else float
+                mask = rand_mask(rng, ncell, rng.choice(["one", "some", "none"]))
+                arr = numpy.ma.array(numpy.array([dt(c) for c in cells], dtype=dt).reshape(shape), mask=numpy.array(mask, dtype=bool).reshape(shape))
+                p = {"RawValues": codes, "FuzzyValues" if fz else "NormalValues": vals, "DefaultFuzzyValue" if fz else "DefaultNormalValue": rng.choice([0, -0.5, 0.75])}
+                cases.append(Case(cmd, p, [arr]))
+    for n in curves:
+        for cmd in ("NormalizeCurve", "CvtToFuzzyCurve"):
+            fz = cmd == "CvtToFuzzyCurve"
+            xs = rng.sample(range(-n, 3 * n), n)                    # control points in no particular order, whole numbers: cells on them and half-way between them
+            ys = [((k * 29) % 64) / 32.0 - (1.25 if fz else 1) for k in range(n)]
+            shape = rng.choice(LONG_TABLE_SHAPES)
+            ncell = int(numpy.prod(shape))
+            srt = sorted(xs)
+            cells = [float(rng.choice(xs)) if rng.random() < 0.4 else (srt[i] + srt[i + 1]) / 2.0 for i in [rng.randrange(n - 1) for _ in range(ncell)]]
+            cells[0], cells[-1] = float(srt[0] - 2), float(srt[-1] + 2)
+            mask = rand_mask(rng, ncell, rng.choice(["one", "some", "none"]))
+            arr = numpy.ma.array(numpy.array(cells).reshape(shape), mask=numpy.array(mask, dtype=bool).reshape(shape))
+            cases.append(Case(cmd, {"RawValues": xs, "FuzzyValues" if fz else "NormalValues": ys}, [arr]))
+    return cases
+
+
+BIG_FORMS = ("mask", "nomask", "plain")
+
+
+def big_field(nr, shape, form, lattice=8, dtype=float, missing=0.03, zeros=None):
+    """a field of up to millions of cells (numpy generator `nr`) holding quarters in [-lattice/4, lattice/4] (ints: whole numbers), as a masked array with a mask
+    array and missing cells ("mask"), a masked array without a mask array ("nomask") or a plain ndarray - what a plug-in command may return ("plain").
+    (A random block of some fifty thousand cells, of an odd length that lines up with no row of the grids used, repeated: drawing millions of random cells costs more than running the command)"""
+    cells = int(numpy.prod(shape))
+
+    def rep(block):
+        return numpy.resize(block, cells).reshape(shape)
+    blk = 49999 + 2 * nr.randint(0, 40)
+    d = nr.randint(-lattice, lattice + 1, size=blk)
+    d = d.astype(numpy.int64) if dtype == int else d / 4.0
+    if zeros is not None:
+        d[nr.rand(blk) < zeros] = 0
+    d = rep(d)
+    if form == "mask":
+        return numpy.ma.array(d, mask=rep(nr.rand(blk + 2) < missing))
+    if form == "falsemask":
+        return numpy.ma.array(d, mask=numpy.zeros(shape, dtype=bool))          # a mask array in which nothing is missing (what a reader delivers)
+    return numpy.ma.array(d) if form == "nomask" else d
+
+
+def field_changed(before, after):
+    """None, or how `after` (the array a producer holds after a consumer ran) differs from `before` = (type, dtype, shape, mask copy, data copy): exact comparison"""
+    t, dt, sh, m0, d0 = before
+    if type(after) is not t:
+        return "kind %s -> %s" % (t.__name__, type(after).__name__)
+    if after.dtype != dt or after.shape != sh:
+        return "element type / shape %s %r -> %s %r" % (dt, sh, after.dtype, after.shape)
+    m1, d1 = numpy.ma.getmaskarray(after), numpy.ma.getdata(after)
+    if not numpy.array_equal(m0, m1):
+        return "missing cells changed (%d -> %d missing)" % (int(m0.sum()), int(m1.sum()))
+    if numpy.array_equal(d0, d1):          # (the common case, decided without building index arrays of millions of cells)
+        return None
+    keep = ~m0
+    if not numpy.array_equal(d0[keep], d1[keep]):
+        with numpy.errstate(all="ignore"):
+            i = int(numpy.flatnonzero((d0 != d1).ravel() & keep.ravel())[0])
+        return "value of cell %d: %r -> %r" % (i, d0.ravel()[i].item(), d1.ravel()[i].item())
+    return None
+
+
+def field_snapshot(a):
+    return (type(a), a.dtype, a.shape, numpy.ma.getmaskarray(a).copy(), numpy.ma.getdata(a).copy())
+
+
+def execute_on(cmd, params, arrays, fuzzy=None):
+    """the real `execute` on the very arrays given (masked or plain, no copies, nothing rendered cell by cell): for fields of millions of cells.
+    Returns ("ok", result) or ("err", exception)"""
+    lib, how, pmap = COMMANDS[cmd]
+    fuzzy_in = cmd in FUZZY_CONSUMERS if fuzzy is None else fuzzy
+    ids = {}
+    prods = [ids.setdefault(id(a), Producer(a, "I%d" % i, fuzzy_in)) for i, a in enumerate(arrays)]
+    kwargs = dict(params)
+    if how == "one":
+        kwargs["InFieldName"] = prods[0]
+    elif how == "ab":
+        kwargs["A"], kwargs["B"] = prods[0], prods[1]
+    else:
+        kwargs["InFieldNames"] = list(prods)
+    obj = command_class(cmd)("R", [], program=None, lineno=CMD_LINE)
+    with warnings.catch_warnings():
+        warnings.simplefilter("ignore")
+        old = numpy.seterr(all="ignore")
+        try:
+            return "ok", obj.execute(**kwargs)
+        except Exception as e:      # noqa
+            return "err", e
+        finally:
+            numpy.seterr(**old)
+
+
 def gen_chains(rng, count, consumers=None, style="wild"):
     """cases whose inputs are the very arrays returned by real executions of other commands (two levels deep): whatever a result array
     carries besides its visible values (hidden numbers under missing cells, fill value, flags, attached attributes, shared buffers)
@@ -915,7 +1118,7 @@ def huge_twin(ctx, c, out, cells=300000):
                 break
 
 
-def run_stream(ctx, model, cases, stream, tol=common.TOL, on_result=None, rerun=True, narrow=True, pipeline=True, layout=True, strict=True, payload=True, tile=True, exact=True, fault=True, plain=True):
+def run_stream(ctx, model, cases, stream, tol=common.TOL, on_result=None, rerun=True, narrow=True, pipeline=True, layout=True, strict=True, payload=True, tile=True, exact=True, fault=True, plain=True, derived=True):
     """runs cases on implementation and model, records disagreements; calls on_result(case, out, answer)"""
     outs = []
     kept = []
@@ -999,6 +1202,11 @@ def run_stream(ctx, model, cases, stream, tol=common.TOL, on_result=None, rerun=
             d = _same(out, out6)
             if d:
                 ctx.fail("%s: with its inputs handed over as plain ndarrays (no cell missing) the outcome differs (%s)" % (c.cmd, d), c.describe())
+            else:
+                # ... and the plain arrays the producers handed out (their stored results) are what they were
+                d = _handed_changed(c, out6)
+                if d:
+                    ctx.fail("%s: given plain ndarrays (a plug-in command's result) the command changed its input no. %d, the stored result of another command: %s" % (c.cmd, d[0], d[1]), c.describe())
         if plain and out["status"] == "ok" and len(set(id(a) for a in c.inputs)) >= 2 and not numpy.ma.getmaskarray(c.inputs[0]).any() \
                 and any(numpy.ma.getmaskarray(a).any() for a in c.inputs[1:]) and out["vis"][3] is not None and ctx.rng.random() < 0.7:
             # the first listed field is a plain ndarray (a plug-in's result, nothing missing in it), the others are masked arrays with missing cells:
@@ -1010,6 +1218,21 @@ def run_stream(ctx, model, cases, stream, tol=common.TOL, on_result=None, rerun=
             d = _same(out, out7)
             if d:
                 ctx.fail("%s: with its first input handed over as a plain ndarray and the others as masked arrays the outcome differs (%s)" % (c.cmd, d), c.describe())
+            else:
+                d = _handed_changed(c, out7)
+                if d:
+                    ctx.fail("%s: given a plain ndarray first and masked arrays after it, the command changed its input no. %d, the stored result of another command: %s" % (c.cmd, d[0], d[1]), c.describe())
+        if derived and out["status"] == "ok" and c.inputs and (getattr(c, "always_derived", False) or _rng2(ctx).random() < 0.15):
+            # the producers are commands of a user library whose classes are DERIVED from built-in commands (a plug-in that extends CvtToFuzzy, FuzzyOr, Sum ...):
+            # to the consumer they are commands like any other - the outcome depends on the arrays they hand out, not on their class
+            base = _rng2(ctx).choice(FUZZY_PRODUCERS if c.cmd in FUZZY_CONSUMERS else [x for x in COMMANDS if x not in FUZZY_PRODUCERS])
+            out8 = run_impl(c, derived=base)
+            ctx.count("derived_producer_twins")
+            d = _same(out, out8)
+            if d:
+                beyond = [v for v in (out8["vis"][3] or []) if v is not None and not (-1 <= v <= 1)] if out8["status"] == "ok" and c.cmd in FUZZY_PRODUCERS else []
+                ctx.fail("%s: with its inputs produced by plug-in commands derived from the built-in %s the outcome differs (%s)%s" % (
+                    c.cmd, base, d, "; the fuzzy result holds %r, outside [-1, 1]" % beyond[:3] if beyond else ""), dict(c.describe(), producers_derived_from=base))
         if payload and out["status"] == "ok" and any(a.dtype.kind == "f" and numpy.ma.getmaskarray(a).any() for a in c.inputs) and ctx.rng.random() < 0.6:
             # what lies beneath a missing cell may be anything, NaN and infinities included (what masked_invalid or a reader leaves behind)
             ins = []
@@ -1154,6 +1377,35 @@ def run_stream(ctx, model, cases, stream, tol=common.TOL, on_result=None, rerun=
         if on_result:
             on_result(c, out, ans)
     return kept, outs, answers
+
+
+def _rng2(ctx):
+    """random decisions of the twins added later draw from a generator of their own, so that the cases and twins generated before them stay what they were under every seed"""
+    import random
+    if "_rng2" not in ctx.__dict__:
+        ctx._rng2 = random.Random("twins2-%s-%s" % (ctx.prop, ctx.seed))
+    return ctx._rng2
+
+
+def _handed_changed(c, out):
+    """None, or (input no., what changed) when an array handed out by a producer of `out` no longer holds what the case's input holds (both hold the same cells)"""
+    for k, (a, h) in enumerate(zip(c.inputs, out.get("handed", []))):
+        d0, m0 = numpy.ma.getdata(a), numpy.ma.getmaskarray(a)
+        keep = ~m0
+        if c.cmd in FUZZY_CONSUMERS:
+            # (an input declared fuzzy that holds values outside [-1, 1] is no result of any fuzzy command: limiting those in place is not held against the consumer)
+            with numpy.errstate(all="ignore"):
+                keep = keep & (d0 >= -1) & (d0 <= 1)
+        if isinstance(h, numpy.ma.MaskedArray) != isinstance(a, numpy.ma.MaskedArray) and isinstance(h, numpy.ma.MaskedArray):
+            return k, "a plain ndarray became a masked array"
+        if h.shape != a.shape or h.dtype != a.dtype:
+            return k, "shape / element type %r %s -> %r %s" % (a.shape, a.dtype, h.shape, h.dtype)
+        if not numpy.array_equal(numpy.ma.getmaskarray(h), m0):
+            return k, "missing cells changed"
+        d1 = numpy.ma.getdata(h)
+        if not numpy.array_equal(d0[keep], d1[keep]):
+            return k, "values %r -> %r" % (d0[keep].ravel().tolist()[:6], d1[keep].ravel().tolist()[:6])
+    return None
 
 
 def narrow_twin(rng, case):
